@@ -318,3 +318,226 @@ pub fn c15(tier: &str, seed: u64, ops: Option<&[String]>) -> Report {
     rep.sample("vib 30ffffffff01 -> InvalidVarByteInt".into());
     rep
 }
+
+// ---------------------------------------------------------------- topics (C16, C17, C18)
+
+/// MQTT 4.7 / 4.8.2 written out independently of the crate.  Returns the byte index of the
+/// '/' before the shared filter for a valid shared filter, 0 for a valid ordinary one.
+pub fn spec_filter(s: &str) -> Option<usize> {
+    if s.is_empty() || s.len() > 65535 || s.contains('\0') {
+        return None;
+    }
+    let levels: Vec<&str> = s.split('/').collect();
+    for (i, l) in levels.iter().enumerate() {
+        if l.contains('#') && (*l != "#" || i + 1 != levels.len()) {
+            return None;
+        }
+        if l.contains('+') && *l != "+" {
+            return None;
+        }
+    }
+    if levels[0] == "$share" && levels.len() >= 2 {
+        if levels.len() < 3 {
+            return None;
+        }
+        let g = levels[1];
+        if g.is_empty() || g.contains('+') || g.contains('#') {
+            return None;
+        }
+        let sep = 7 + g.len();
+        if s.len() == sep + 1 {
+            return None;
+        }
+        return Some(sep);
+    }
+    Some(0)
+}
+
+pub fn spec_name(s: &str) -> bool {
+    s.len() <= 65535 && !s.contains('+') && !s.contains('#') && !s.contains('\0')
+}
+
+fn strings_from_ops(ops: &[String], name: &str) -> Vec<String> {
+    let mut v = Vec::new();
+    for op in ops {
+        let t: Vec<&str> = op.split_whitespace().collect();
+        if t.len() == 2 && (t[0] == name || (name == "tf" && t[0] == "tfd")) {
+            if let Some(b) = unhex(t[1]) {
+                if let Ok(s) = String::from_utf8(b) {
+                    v.push(s);
+                }
+            }
+        }
+    }
+    v
+}
+
+fn gen_strings(stream: &str, tier: &str, seed: u64) -> Vec<String> {
+    strings_from_ops(&crate::gen::gen(stream, tier, seed), stream)
+}
+
+fn hash_of<T: std::hash::Hash>(t: &T) -> u64 {
+    use std::hash::Hasher;
+    let mut h = std::collections::hash_map::DefaultHasher::new();
+    t.hash(&mut h);
+    h.finish()
+}
+
+pub fn c16(tier: &str, seed: u64, ops: Option<&[String]>) -> Report {
+    use mqtt_proto::TopicFilter;
+    let mut rep = Report::new("C16", "TopicFilter::is_invalid/try_from and the SUBSCRIBE/UNSUBSCRIBE decoders (v3 and v5) against MQTT 4.7/4.8.2 written independently: all strings up to length 5 (thorough 6) over {/ + # $ a NUL é 你 😀}, every $share prefix shape x short strings, 65534/65535/65536-byte strings, random");
+    let strs = match ops {
+        Some(o) => strings_from_ops(o, "tf"),
+        None => gen_strings("tf", tier, seed),
+    };
+    let mut seen = std::collections::HashSet::new();
+    for s in strs {
+        rep.cases += 1;
+        if !seen.insert(s.clone()) {
+            continue;
+        }
+        rep.distinct += 1;
+        let spec = spec_filter(&s);
+        let (inv, sep) = match std::panic::catch_unwind(|| TopicFilter::is_invalid(&s)) {
+            Ok(r) => r,
+            Err(_) => {
+                rep.fail("filter-panic", format!("tf {}", hex_or_dash(s.as_bytes())), "is_invalid panicked".into());
+                continue;
+            }
+        };
+        rep.count(if spec.is_some() { if spec == Some(0) { "valid-plain" } else { "valid-shared" } } else { "invalid" });
+        let ctor = TopicFilter::try_from(s.clone()).is_ok();
+        if inv == spec.is_some() || ctor != spec.is_some() {
+            let key = if spec.is_some() { "filter-rejects-valid" } else { "filter-accepts-invalid" };
+            rep.fail(key, format!("tf {}", hex_or_dash(s.as_bytes())), format!("{:?}: is_invalid={} try_from.is_ok={} but MQTT says valid={}", s, inv, ctor, spec.is_some()));
+            continue;
+        }
+        if let Some(sp) = spec {
+            if sep as usize != sp {
+                rep.fail("filter-sep", format!("tf {}", hex_or_dash(s.as_bytes())), format!("{:?}: separator index {} expected {}", s, sep, sp));
+            }
+        }
+        // same decision inside SUBSCRIBE / UNSUBSCRIBE packets, v3 and v5 (strings that fit a packet)
+        if s.len() <= 65535 {
+            let verdicts = crate::pkt::filter_in_packets(&s);
+            for (what, accepted) in verdicts {
+                if accepted != spec.is_some() {
+                    rep.fail("filter-packet-path", format!("tf {}", hex_or_dash(s.as_bytes())), format!("{:?}: {} accepted={} but MQTT says valid={}", s, what, accepted, spec.is_some()));
+                }
+            }
+        }
+    }
+    rep.sample("tf 2b78 (\"+x\") -> invalid".into());
+    rep.sample("tf 2473686172652f672f23 (\"$share/g/#\") -> valid, sep 8".into());
+    rep
+}
+
+pub fn c17(tier: &str, seed: u64, ops: Option<&[String]>) -> Report {
+    use mqtt_proto::TopicFilter;
+    let mut rep = Report::new("C17", "for every accepted filter of the tf stream: accessors = the unique split $share/<name>/<filter> computed independently, non-shared report none, to_string/deref = text; ==, cmp, hash of filters agree with those of their strings on consecutive pairs");
+    let strs = match ops {
+        Some(o) => strings_from_ops(o, "tf"),
+        None => gen_strings("tf", tier, seed),
+    };
+    let mut prev: Option<(String, TopicFilter)> = None;
+    let mut seen = std::collections::HashSet::new();
+    for s in strs {
+        let f = match TopicFilter::try_from(s.clone()) {
+            Ok(f) => f,
+            Err(_) => continue,
+        };
+        rep.cases += 1;
+        if seen.insert(s.clone()) {
+            rep.distinct += 1;
+        }
+        let input = format!("tf {}", hex_or_dash(s.as_bytes()));
+        // independent split
+        let expect: Option<(String, String)> = if s.starts_with("$share/") {
+            let rest = &s[7..];
+            rest.find('/').map(|i| (rest[..i].to_string(), rest[i + 1..].to_string()))
+        } else {
+            None
+        };
+        rep.count(if expect.is_some() { "shared" } else { "plain" });
+        let got = std::panic::catch_unwind(std::panic::AssertUnwindSafe(|| {
+            (f.shared_group_name().map(|x| x.to_string()), f.shared_filter().map(|x| x.to_string()), f.shared_info().map(|(a, b)| (a.to_string(), b.to_string())), f.is_shared())
+        }));
+        match got {
+            Err(_) => rep.fail("filter-accessor-panic", input.clone(), format!("{:?}: a shared-subscription accessor panicked", s)),
+            Ok((g, fl, info, sh)) => {
+                let e_g = expect.as_ref().map(|e| e.0.clone());
+                let e_f = expect.as_ref().map(|e| e.1.clone());
+                if g != e_g || fl != e_f || info != expect || sh != expect.is_some() {
+                    rep.fail("filter-accessors", input.clone(), format!("{:?}: accessors gave {:?}/{:?}/{:?}/{} expected {:?}", s, g, fl, info, sh, expect));
+                }
+            }
+        }
+        if f.to_string() != s || &*f != s.as_str() {
+            rep.fail("filter-text", input.clone(), "to_string/deref differs from the original text".into());
+        }
+        if hash_of(&f) != hash_of(&s) {
+            rep.fail("filter-hash", input.clone(), "hash(filter) != hash(text)".into());
+        }
+        if let Some((ps, pf)) = &prev {
+            if (pf == &f) != (ps == &s) || pf.cmp(&f) != ps.cmp(&s) || pf.partial_cmp(&f) != ps.partial_cmp(&s) {
+                rep.fail("filter-cmp", input.clone(), format!("==/cmp of filters {:?},{:?} disagree with their texts", ps, s));
+            }
+            // a filter built twice from the same text is equal to itself with equal hash
+            let again = TopicFilter::try_from(s.clone()).unwrap();
+            if again != f || hash_of(&again) != hash_of(&f) {
+                rep.fail("filter-cmp", input.clone(), "two filters from the same text differ".into());
+            }
+        }
+        prev = Some((s, f));
+    }
+    rep.sample("tf 2473686172652fe4bda0e5a5bd2f2b -> group 你好, filter +".into());
+    rep
+}
+
+pub fn c18(tier: &str, seed: u64, ops: Option<&[String]>) -> Report {
+    use mqtt_proto::TopicName;
+    let mut rep = Report::new("C18", "TopicName::is_invalid/try_from and the PUBLISH / will / response-topic decode paths (v3, v5) against the MQTT rule written independently; text preserved; $share/ and $SYS/ prefixes; same string space as C16");
+    let strs = match ops {
+        Some(o) => strings_from_ops(o, "tn"),
+        None => gen_strings("tn", tier, seed),
+    };
+    let mut seen = std::collections::HashSet::new();
+    for s in strs {
+        rep.cases += 1;
+        if !seen.insert(s.clone()) {
+            continue;
+        }
+        rep.distinct += 1;
+        let input = format!("tn {}", hex_or_dash(s.as_bytes()));
+        let spec = spec_name(&s);
+        rep.count(if spec { "valid" } else { "invalid" });
+        let inv = TopicName::is_invalid(&s);
+        match TopicName::try_from(s.clone()) {
+            Ok(t) => {
+                if !spec || inv {
+                    rep.fail("name-accepts-invalid", input.clone(), format!("{:?} accepted", s));
+                }
+                if &*t != s.as_str() || t.to_string() != s {
+                    rep.fail("name-text", input.clone(), "text not preserved".into());
+                }
+                if t.is_shared() != s.starts_with("$share/") || t.is_sys() != s.starts_with("$SYS/") {
+                    rep.fail("name-prefix", input.clone(), format!("{:?}: is_shared={} is_sys={}", s, t.is_shared(), t.is_sys()));
+                }
+            }
+            Err(_) => {
+                if spec || !inv {
+                    rep.fail("name-rejects-valid", input.clone(), format!("{:?} rejected", s));
+                }
+            }
+        }
+        if s.len() <= 65535 {
+            for (what, accepted) in crate::pkt::name_in_packets(&s) {
+                if accepted != spec {
+                    rep.fail("name-packet-path", input.clone(), format!("{:?}: {} accepted={} but the rule says valid={}", s, what, accepted, spec));
+                }
+            }
+        }
+    }
+    rep.sample("tn 612b (\"a+\") -> invalid".into());
+    rep
+}
